@@ -25,7 +25,7 @@ KF_EXPLICIT = "explicit-suffix-with-default-args"
 KF_NUMBER = "overload-number-collides-with-name"
 KF_LUA_NS = "lua-namespace-function-shares-module-table"
 
-NAMES = ["foo", "barBaz", "getHTTPCode", "apply", "Set", "op1", "foo_1", "XMLParse", "a", "getX", "bar_baz_0", "size"]
+NAMES = ["foo", "barBaz", "getHTTPCode", "apply", "Set", "op1", "foo_1", "XMLParse", "a", "getX", "bar_baz_0", "size", "nItems", "xY", "ABc"]
 TYPES = ["int", "double", "long", "float"]
 
 
